@@ -44,6 +44,9 @@ def generate(prop, seed, tier):
     fr = rng.stream(seed, 'faults')
     thorough = tier == 'thorough'
     n = _w(r, [(r.randint(1, 6), 2), (r.randint(7, 40), 5), (r.randint(41, 70), 2 if thorough else 0.3), (r.randint(100, 150), 1 if thorough else 0.15)])
+    bn = rng.stream(seed, 'bign')
+    if bn.random() < 0.02:
+        n = bn.randint(300, 700)          # failure runs of several hundred traces (the warning threshold doubles: 8, 16, ... 256, 512)
     m = r.randint(2, 8)
     shape = fr.choice(['random', 'random', 'all_accept', 'all_reject', 'first_rej', 'last_rej', 'long_run', 'long_run', 'alternate'])
     rej = 'rnetvk'       # ResynchroError, None, ZeroDivisionError, TypeError, ValueError, a custom Exception subclass
@@ -61,7 +64,7 @@ def generate(prop, seed, tier):
     elif shape == 'long_run':
         pat = ['a'] * n
         s0 = fr.randint(0, max(0, n - 1))
-        L = fr.choice([8, 9, 16, 17, 24, 33] + ([64, 65, 130] if n >= 70 else []))
+        L = fr.choice([8, 9, 16, 17, 24, 33] + ([64, 65, 130] if n >= 70 else []) + ([256, 257, 300, 520] * 3 if n >= 300 else []))
         for i in range(s0, min(n, s0 + L)):
             pat[i] = fr.choice(rej)
     else:
@@ -88,9 +91,10 @@ def generate(prop, seed, tier):
 def make_input(scn):
     g = rng.np_stream(scn['table_seed'], 'sync')
     n, m = scn['n'], scn['m']
-    samples = (g.integers(0, 100, (160, 8))[:n, :m]).astype(scn['tdtype'])
-    meta = {'plaintext': g.integers(0, 256, (160, 16))[:n, :scn['ptw']].astype('uint8'), 'idx': np.arange(n).astype('uint32')}
-    gain = g.random(160)[:n].astype('float64')
+    R = max(160, n)
+    samples = (g.integers(0, 100, (R, 8))[:n, :m]).astype(scn['tdtype'])
+    meta = {'plaintext': g.integers(0, 256, (R, 16))[:n, :scn['ptw']].astype('uint8'), 'idx': np.arange(n).astype('uint32')}
+    gain = g.random(R)[:n].astype('float64')
     if scn['gain']:
         meta['gain'] = gain
     if scn['label']:
